@@ -380,8 +380,14 @@ def check_f(ctx, facts, tier, seed):
         a, b, c = D.wire('a', 1), D.wire('b', 4), D.wire('c', 8)
         buf = D.make('Buf', 'buf', b, D.wire('b2', 4))
         pin, pout = buf.attrs['inPorts'][0], buf.attrs['outPorts'][0]
-        pool = [('a', a, a), ('b', b, b), ('c', c, c), ('port(b)', pin, b), ('port(b2)', pout, pout.attrs['wire']), ('a', a, a), ('b', b, b)]
+        d = D.wire('d', 64)
+        # a second wire with the short name of a watched one, in another block of the hierarchy (wires are told apart by identity, not by name)
+        sub = D.make('Logic', 'sub')
+        a_sub = el.call(el.getattr_(sub, 'wire'), ['a', 4], {}, {})
+        pool = [('a', a, a), ('b', b, b), ('c', c, c), ('port(b)', pin, b), ('port(b2)', pout, pout.attrs['wire']), ('a', a, a), ('b', b, b), ('d', d, d), ('sub.a', a_sub, a_sub)]
         watch = [rnd.choice(pool) for _ in range(nwatch)]
+        if nwatch >= 2 and rnd.random() < 0.3:
+            watch[:2] = [pool[0], pool[8]] if rnd.random() < 0.5 else [pool[8], pool[0]]
         wf = D.make('Waveform', 'wf', [x[1] for x in watch], rel=REL)
         wires = {id(w): w for _, _, w in pool}
         return D, el, wf, watch, list(wires.values())
@@ -407,6 +413,8 @@ def check_f(ctx, facts, tier, seed):
                         for w in wires:
                             if rnd.random() < 0.6 or not expect[w.oid]:
                                 w.attrs['value'] = rnd.randrange(1 << w.attrs['width'])
+                                if w.attrs['width'] > 32 and rnd.random() < 0.8:      # neighbours around the top bit and small numbers: consecutive values that differ by one
+                                    w.attrs['value'] = rnd.choice(((1 << 63) - 1, 1 << 63, (1 << 63) + 1, (1 << 64) - 1, (1 << 64) - 2, 0, 1))
                             expect[w.oid].append(w.attrs['value'])
                         meth(el, wf, 'clock')
                 elif op == 'clear':
